@@ -685,6 +685,86 @@ fn check_seq_in(dir: &Path, s: &Seq, obs: &mut Obs) -> CaseResult {
     Ok(())
 }
 
+// ---- layer 2b: one trigger consulted by several threads at the same (driven) instant ----------------------------
+
+/// One `TimeTrigger` shared (through a user-defined policy) by several rolling appenders, each on its own thread.
+/// Per round the clock is moved to an instant at or after the scheduled rotation and all threads append at once:
+/// exactly one consultation of that round may fire ("fires on the first record at or after the scheduled instant ...
+/// then reschedules strictly into the future"), whichever thread gets there first.
+pub fn check_shared(tmp: &Path, s: &Seq, obs: &mut Obs) -> CaseResult {
+    if !same_zone(&s.zone) {
+        return fail("C16:harness:wrong-zone", "sequence evaluated in the wrong zone");
+    }
+    let dir = scratch(tmp, "c16s");
+    let r = check_shared_in(&dir, s, obs);
+    clock::set_now(None);
+    let _ = std::fs::remove_dir_all(&dir);
+    r
+}
+
+fn check_shared_in(dir: &Path, s: &Seq, obs: &mut Obs) -> CaseResult {
+    clock::set_now(Some((s.start, 0)));
+    let cfg: TimeTriggerConfig = serde_json::from_value(serde_json::json!({"interval": format!("{} {}", s.n, unit_word(s.unit)), "modulate": s.modulate, "max_random_delay": 0}))
+        .map_err(|e| Failure { sig: "C16:config".into(), msg: e.to_string() })?;
+    let trig = match catch(|| TimeTrigger::new(cfg)) {
+        Ok(t) => Arc::new(t),
+        Err(p) => return fail(panic_sig(s.unit, &p), format!("TZ={:?}: TimeTrigger::new at unix {} with {:?} x{} panicked: {}", s.zone, s.start, s.unit, s.n, p)),
+    };
+    let threads = 2 + s.gaps.len() % 7;
+    let rounds = 24usize;
+    let fired = Arc::new(Mutex::new(vec![]));
+    let mut apps = vec![];
+    for k in 0..threads {
+        apps.push(build_appender(&dir.join(format!("a{}.log", k)), true, &None, Box::new(TrigProbe { trigger: trig.clone(), fired: fired.clone() })).map_err(|e| Failure { sig: "C16:build".into(), msg: e.to_string() })?);
+    }
+    let barrier = std::sync::Barrier::new(threads + 1);
+    let mut verdict: CaseResult = Ok(());
+    std::thread::scope(|sc| {
+        for app in &apps {
+            let barrier = &barrier;
+            sc.spawn(move || {
+                for _ in 0..rounds {
+                    barrier.wait();
+                    let _ = catch(|| append_msg(app, "x"));
+                    barrier.wait();
+                }
+            });
+        }
+        for round in 0..rounds {
+            // at or (every other round) a little after the scheduled instant
+            let scheduled = trig.verif_next_roll_time();
+            let t = scheduled.timestamp() + if round % 2 == 0 { 0 } else { 1 + (s.gaps.get(round % s.gaps.len().max(1)).copied().unwrap_or(0) % 50) } + if scheduled.timestamp_subsec_nanos() > 0 { 1 } else { 0 };
+            clock::set_now(Some((t, 0)));
+            fired.lock().unwrap().clear();
+            barrier.wait();
+            barrier.wait();
+            if verdict.is_err() {
+                continue; // keep the barriers going until every thread has finished
+            }
+            let f = fired.lock().unwrap().clone();
+            obs.sub_evals += f.len() as u64;
+            if let Some(Err(p)) = f.iter().find(|r| r.is_err()) {
+                verdict = fail(panic_sig(s.unit, p), format!("TZ={:?}: trigger() consulted by {} threads at unix {} failed: {}", s.zone, threads, t, p));
+                continue;
+            }
+            let yes = f.iter().filter(|r| **r == Ok(true)).count();
+            if f.len() != threads {
+                verdict = fail("C16:consultations", format!("round {}: {} consultations from {} threads", round, f.len(), threads));
+            } else if yes != 1 {
+                verdict = fail(
+                    if yes == 0 { "C16:missed-firing" } else { "C16:fired-more-than-once" },
+                    format!("TZ={:?}: one trigger ({:?} x{}, modulate={}) consulted by {} threads, all at unix {} with the rotation scheduled for {}: it fired {} times, expected exactly once (round {})", s.zone, s.unit, s.n, s.modulate, threads, t, scheduled, yes, round),
+                );
+            } else if trig.verif_next_roll_time().timestamp() <= t {
+                verdict = fail("C16:reschedule-not-in-future", format!("after firing at unix {} the next rotation is scheduled for {}", t, trig.verif_next_roll_time()));
+            }
+        }
+    });
+    obs.nontrivial = threads >= 3;
+    obs.class(format!("shared-trigger-threads={}", threads));
+    verdict
+}
+
 // ---- layer 3: end to end (pre-process ordering) ---------------------------------------------------------------
 
 pub fn check_e2e(tmp: &Path, s: &Seq, obs: &mut Obs) -> CaseResult {
@@ -980,6 +1060,12 @@ pub fn run(run: &Run) {
                             run.eval_one("end-to-end", &c, &move |s: &Seq, o: &mut Obs| check_e2e(&t, s, o));
                         }
                     }
+                    "shared" => {
+                        if let Ok(c) = serde_json::from_value::<Seq>(rf.case.clone()) {
+                            let t = tmp.clone();
+                            run.eval_one("shared", &c, &move |s: &Seq, o: &mut Obs| check_shared(&t, s, o));
+                        }
+                    }
                     _ => {}
                 }
             }
@@ -993,6 +1079,8 @@ pub fn run(run: &Run) {
     run.search("sequence", w * run.tier.pick(3_000, 100_000), seq_strategy(zone.clone()), &move |s: &Seq, o: &mut Obs| check_seq(&t1, s, o));
     let t2 = tmp.clone();
     run.search("end-to-end", w * run.tier.pick(300, 10_000), seq_strategy(zone.clone()), &move |s: &Seq, o: &mut Obs| check_e2e(&t2, s, o));
+    let t3 = tmp.clone();
+    run.search("shared", w * run.tier.pick(60, 2_000), seq_strategy(zone.clone()), &move |s: &Seq, o: &mut Obs| check_shared(&t3, s, o));
     run.note(format!("zone {} studied by worker {}", zone, run.worker.0));
 }
 
@@ -1004,6 +1092,7 @@ pub fn child_replay(rf: &ReplayFile, obs: &mut Obs) -> CaseResult {
         "schedule" | "extreme" => check(&serde_json::from_value(rf.case.clone()).map_err(|e| Failure { sig: "C16:replay".into(), msg: e.to_string() })?, obs),
         "sequence" => check_seq(&tmp, &serde_json::from_value(rf.case.clone()).map_err(|e| Failure { sig: "C16:replay".into(), msg: e.to_string() })?, obs),
         "end-to-end" => check_e2e(&tmp, &serde_json::from_value(rf.case.clone()).map_err(|e| Failure { sig: "C16:replay".into(), msg: e.to_string() })?, obs),
+        "shared" => check_shared(&tmp, &serde_json::from_value(rf.case.clone()).map_err(|e| Failure { sig: "C16:replay".into(), msg: e.to_string() })?, obs),
         _ => fail("C16:replay", "unknown part"),
     };
     let _ = std::fs::remove_dir_all(&tmp);
@@ -1026,7 +1115,7 @@ pub fn replay(part: &str, case: serde_json::Value) -> Option<CaseResult> {
 pub fn meta() -> EvidenceMeta {
     EvidenceMeta {
         level: "exploration",
-        rule: "one worker process per zone (UTC, two fixed offsets, five POSIX-rule DST zones incl. 30-minute and midnight transitions; thorough adds eight named zones). Layer 1 (schedule function via the guarded wrapper): instants constructed around a feature (second/minute/hour/day/ISO-week/month/year boundary, Feb 28/29, Dec 31, ISO week 53, every DST transition of the zone in a generated year 1970-2100, 9% uniform) with offsets of -2..+2 s (sometimes +-1 h) and sub-second parts 0/1/999999999/random, all seven units, n in 1..60 dense and a sparse set up to 10 000, modulate on/off; oracle: no panic, result strictly after now, and wherever chrono reports a constant UTC offset over [start of the current unit, result] (for modulated schedules, which name a wall-clock boundary: over [now, result]) the result in local wall-clock seconds equals the reference computed with the harness's own proleptic-Gregorian arithmetic (days-from-civil, ISO weeks from first principles): start of unit + n units, or with modulation either reading of 'next multiple of n counted from the start of the enclosing period' (wrap at the period end, or run past it). Part extreme: multipliers from 100 000 to i64::MAX (no-panic and future only). Layer 2 (trigger object, clock override): non-decreasing arrival sequences (bursts, gaps of seconds to a year): fires iff now >= scheduled, reschedules strictly into the future inside [next boundary, + max_random_delay), schedule unchanged between firings. Layer 3: RollingFileAppender + TimeTrigger + fixed window under the driven clock: the first record at/after the boundary is the first record of the new file. Layer 4 (real clock, no override; one child process per case): TZ is a POSIX rule whose daylight-saving time (+7 s ... +1 h) begins two seconds after the case starts; a trigger 'n seconds|minutes + modulate' (n | 60) created after the switch, and one that has been running since before it, must schedule the next multiple of n in local time under the offset now in force; a record arriving 150-350 ms before the scheduled instant must not fire it. non-trivial = within 2 s of a unit boundary, or leap-day/year-end/week-53 feature, or within 1 h of a DST transition (layer 1); >= 2 firings (layer 2); >= 2 rotations (layer 3)".into(),
+        rule: "one worker process per zone (UTC, two fixed offsets, five POSIX-rule DST zones incl. 30-minute and midnight transitions; thorough adds eight named zones). Layer 1 (schedule function via the guarded wrapper): instants constructed around a feature (second/minute/hour/day/ISO-week/month/year boundary, Feb 28/29, Dec 31, ISO week 53, every DST transition of the zone in a generated year 1970-2100, 9% uniform) with offsets of -2..+2 s (sometimes +-1 h) and sub-second parts 0/1/999999999/random, all seven units, n in 1..60 dense and a sparse set up to 10 000, modulate on/off; oracle: no panic, result strictly after now, and wherever chrono reports a constant UTC offset over [start of the current unit, result] (for modulated schedules, which name a wall-clock boundary: over [now, result]) the result in local wall-clock seconds equals the reference computed with the harness's own proleptic-Gregorian arithmetic (days-from-civil, ISO weeks from first principles): start of unit + n units, or with modulation either reading of 'next multiple of n counted from the start of the enclosing period' (wrap at the period end, or run past it). Part extreme: multipliers from 100 000 to i64::MAX (no-panic and future only). Layer 2 (trigger object, clock override): non-decreasing arrival sequences (bursts, gaps of seconds to a year): fires iff now >= scheduled, reschedules strictly into the future inside [next boundary, + max_random_delay), schedule unchanged between firings. Layer 2b (part shared): one trigger shared by 2-8 rolling appenders on as many threads, all appending at the same driven instant at/after the scheduled rotation, 24 rounds: exactly one consultation per round fires. Layer 3: RollingFileAppender + TimeTrigger + fixed window under the driven clock: the first record at/after the boundary is the first record of the new file. Layer 4 (real clock, no override; one child process per case): TZ is a POSIX rule whose daylight-saving time (+7 s ... +1 h) begins two seconds after the case starts; a trigger 'n seconds|minutes + modulate' (n | 60) created after the switch, and one that has been running since before it, must schedule the next multiple of n in local time under the offset now in force; a record arriving 150-350 ms before the scheduled instant must not fire it. non-trivial = within 2 s of a unit boundary, or leap-day/year-end/week-53 feature, or within 1 h of a DST transition (layer 1); >= 2 firings (layer 2); >= 2 rotations (layer 3)".into(),
         assumptions: vec![
             "UTC offsets are taken from chrono (precondition 'offset does not change in between' and construction of instants); the schedule reference itself uses no chrono".into(),
             "modulate: both readings accepted where they differ (the statement's wording admits both)".into(),
